@@ -29,12 +29,12 @@ RULE = ('seeded small worlds (1-4 segments, <=3 channels, optional index file, D
         'length, index header, type code, dimension, count, string total, property count / name length / type / '
         'string length) garbled with 0, all-ones, a wrong tag / unknown type, a moderately large count, plus a '
         'foreign index; and close() at EVERY position of a seeded op history with suspended generators, double '
-        'close and reads after close. evaluations = worlds, sub_evaluations = faulted executions. distinct = '
+        'close and reads after close; and 16 plans of two TdmsFile objects with overlapping lifetimes on different files ({path, stream}^2 x {second open / read / read_metadata} x close order). evaluations = worlds, sub_evaluations = faulted executions. distinct = '
         '(segment shapes, index, scenario set); non-trivial = at least one injected fault made an API call raise '
         'while a library-owned handle had been opened')
 EXPECTED_PROBES = ['eio:read-raised', 'corrupt:raised', 'corrupt:survived', 'foreign-index', 'close-with-suspended-generator',
                    'read-after-close:raised', 'read-after-close:cache-hit', 'writer-block-raises', 'writer-block-enospc', 'realfs-fd-check',
-                   'index-present']
+                   'index-present', 'overlapping-files']
 ASSUMPTIONS = ['failures of open()/seek()/tell() are outside what the statement lists and are not injected; a full disk (ENOSPC at every write event in turn) is injected for the TdmsWriter with-block only',
                'descriptors left open when TdmsFile.open(...) itself raises are not judged (the statement does not list it)']
 
@@ -54,7 +54,7 @@ def opts(tier):
 
 def generate(rng, tier):
     from .c11 import maybe_daqmx_world
-    spec = maybe_daqmx_world(rng, 0.12)
+    spec = maybe_daqmx_world(rng, 0.12, max_segments=2, max_channels=3, wide_p=0.0)
     if spec is None:
         spec, w, _ = gen.gen_world(rng, opts(tier))
     else:
@@ -352,8 +352,103 @@ def execute(case):
     # (6) RealFS sample: /proc/self/fd
     if only is None or only[0] == 'realfs':
         res.violations += realfs_check(case, w, data, index, res)
+    # (7) several TdmsFile objects with overlapping lifetimes on different files
+    if only is None or only[0] == 'overlap':
+        res.violations += overlap(case, w, wo, index, res, only)
     res.ev('violations', [v.as_dict() for v in res.violations][:10], res.sub_evals)
     return res
+
+
+OVERLAP_PLANS = [(ka, kb, inner, order) for ka in ('stream', 'path') for kb in ('stream', 'path')
+                 for inner in ('open', 'read', 'read_metadata') for order in ('BA', 'AB')
+                 if inner == 'open' or order == 'BA']
+
+
+def overlap(case, w, wo, index, res, only):
+    """File A is lazily open while file B is opened / read / closed: closing or finishing one must close exactly its own
+    descriptors, never the caller's streams, and must leave the other one usable."""
+    out = []
+    plans = list(enumerate(OVERLAP_PLANS)) if only is None else [(only[3], OVERLAP_PLANS[only[3]])]
+    worlds = {'a': w, 'b': wo}
+
+    def usable(tf, world, who, label):
+        fulls = {p: _lazy.model_full(c, False) for p, c in world.chans.items()}
+        for path, full in fulls.items():
+            if full[0] == 'dict' or world.chans[path].type is None:
+                continue
+            try:
+                got = ops.norm(ops.chan(tf, world, path)[:])
+            except Exception as exc:
+                return [V('C20.other-file-unusable', '%s: reading %s from the still open file %s raised %s: %s' % (
+                    label, path, who, type(exc).__name__, exc), exc=type(exc).__name__)]
+            if got[0] in ('arr', 'strs', 'rawts') and not ops.agree(got, full):
+                return [V('C20.other-file-unusable', '%s: the still open file %s reads %s as %s, the file holds %s' % (
+                    label, who, path, _lazy._short(got), _lazy._short(full)))]
+            break
+        return []
+
+    def own_check(st, closed_names, label):
+        vs = []
+        bad = [h for h in st.fs.leaked() if any(h.name.startswith(n) for n in closed_names)]
+        if bad:
+            vs.append(V('C20.handle-leak', '%s: library-owned handle(s) still open: %s' % (label, [h.name for h in bad]),
+                        file='data'))
+        fc = st.fs.foreign_closed()
+        if fc:
+            vs.append(V('C20.caller-stream-closed', '%s: caller-owned stream(s) closed: %s' % (label, [h.name for h in fc])))
+        res.compared += 1
+        return vs
+
+    for pi, (ka, kb, inner, order) in plans:
+        res.sub_evals += 1
+        with store(record=False) as st:
+            st.put('a.tdms', w.data)
+            st.put('b.tdms', wo.data)
+            if index is not None:
+                st.put('a.tdms_index', index)
+            label = 'A=open(%s) then B=%s(%s), %s' % (ka, inner, kb, 'B finished/closed first' if order == 'BA' else 'A closed first')
+            try:
+                ta = lib.TdmsFile.open(file_arg(st, ka, 'a.tdms'))
+            except Exception:
+                continue
+            vs = []
+            tb = None
+            try:
+                try:
+                    if inner == 'open':
+                        tb = lib.TdmsFile.open(file_arg(st, kb, 'b.tdms'))
+                    elif inner == 'read':
+                        lib.TdmsFile.read(file_arg(st, kb, 'b.tdms'))
+                    else:
+                        lib.TdmsFile.read_metadata(file_arg(st, kb, 'b.tdms'))
+                except Exception:
+                    pass
+                res.probe('overlapping-files')
+                if inner != 'open' or tb is None:
+                    vs += own_check(st, ['b.tdms'], label + ': after B returned')
+                    vs += usable(ta, w, 'A', label + ': after B returned')
+                    ta.close()
+                else:
+                    first, second = (tb, ta) if order == 'BA' else (ta, tb)
+                    fname, sname = ('b', 'a') if order == 'BA' else ('a', 'b')
+                    first.close()
+                    vs += own_check(st, [fname + '.tdms'], label + ': after the first close()')
+                    vs += usable(second, worlds[sname], sname.upper(), label + ': after the first close()')
+                    second.close()
+                vs += judge(st, res, label + ': after both were closed')
+            finally:
+                for t in (ta, tb):
+                    try:
+                        if t is not None:
+                            t.close()
+                    except Exception:
+                        pass
+            for v in vs:
+                v.sig.update(phase='overlap', param=pi)
+            out += vs
+            if len(out) > 3:
+                return out
+    return out
 
 
 def fields_index(index):
